@@ -156,7 +156,7 @@ theorem mem_discountSites {s : Site} (hs : s ∈ discountSites) :
 
 /-- `Guards.*`, the part that holds on the code as it is: what any `X::setDiscount` guard lets through, other than
     nan, is a number in (0,1].
-    FULL STATEMENT (see `discount_guards_sound`): the same without `d ≠ nan`. -/
+    FULL STATEMENT (see `discount_guards_sound_of`): the same without `d ≠ nan`. -/
 theorem discount_guards_partial (s : Site) (hs : s ∈ discountSites) (d : XRat) (hn : d ≠ .nan)
     (hd : s.g.eval d = false) : DiscOK d :=
   discountOKfinite_sound s.g (mem_discountSites hs).1 d hn hd
@@ -169,7 +169,7 @@ theorem discount_guards_complete (s : Site) (hs : s ∈ discountSites) (d : XRat
 /-- `Guards.*` at full strength: for EVERY double d (nan, ±inf included), `¬ rejects d → 0 < d ∧ d ≤ 1`, for every
     setDiscount sibling — provided each guard rejects nan (`nanRejectedEverywhere` is a closed term over the
     generated table: it is `true` exactly when the source has the `!(d > 0.0 && d <= 1.0)` form everywhere). -/
-theorem discount_guards_sound (h : nanRejectedEverywhere = true) (s : Site) (hs : s ∈ discountSites) (d : XRat)
+theorem discount_guards_sound_of (h : nanRejectedEverywhere = true) (s : Site) (hs : s ∈ discountSites) (d : XRat)
     (hd : s.g.eval d = false) : DiscOK d := by
   by_cases hn : d = .nan
   · subst hn
@@ -177,16 +177,6 @@ theorem discount_guards_sound (h : nanRejectedEverywhere = true) (s : Site) (hs 
     have := h s hs
     rw [hd] at this; exact absurd this (by simp)
   · exact discount_guards_partial s hs d hn hd
-
-/-- … and when it is `false` (the tree as first read: `d <= 0.0 || d > 1.0`), nan is a counterexample:
-    some setDiscount accepts it, and nan is not a discount. -/
-theorem discount_guards_nan_counterexample (h : nanRejectedEverywhere = false) :
-    ∃ s ∈ discountSites, s.g.eval .nan = false ∧ ¬ DiscOK .nan := by
-  simp only [nanRejectedEverywhere, List.all_eq_false] at h
-  obtain ⟨s, hs, he⟩ := h
-  refine ⟨s, hs, by simpa using he, ?_⟩
-  rintro ⟨q, hq, _⟩
-  cases hq
 
 /-- hypotheses are satisfiable: 1/2 passes the guard of MDP::Model::setDiscount, 0 and 2 and -inf do not (test on literals) -/
 example : (discGuard .dense).eval (.fin (1/2)) = false ∧ (discGuard .dense).eval (.fin 0) = true ∧
@@ -497,7 +487,7 @@ theorem discGuard_ok (r : Rep) : (discGuard r).discountOKfinite = true ∧ (disc
 /-- both `MDP::Model::setDiscount` and `MDP::SparseModel::setDiscount` reject nan (closed term over the generated table) -/
 def discNanSafe : Bool := (discGuard .dense).eval .nan && (discGuard .sparse).eval .nan
 
-/-- common core of `step_valid` / `step_valid_partial` -/
+/-- common core of `step_valid_of` / `step_valid_partial` -/
 theorem step_valid_core (h : allValidateFirst = true) (k : Kind) (s : St) (op : Op) (hv : Valid k s)
     (hd : ∀ d, op = .setDiscount d → (discGuard k.base).eval d = false → DiscOK d) :
     Valid k (step k s op).1 := by
@@ -549,10 +539,10 @@ theorem step_valid_core (h : allValidateFirst = true) (k : Kind) (s : St) (op : 
       · simp only [hc, if_true]; exact ⟨hv.disc, hv.T, eigen_rows _ _ hc⟩
       · simpa [hc] using hv
 
-/-- **step_valid (full strength)**: a valid object stays valid under EVERY call of EVERY setter with ANY argument,
+/-- **step_valid_of (full strength)**: a valid object stays valid under EVERY call of EVERY setter with ANY argument,
     accepted or rejected — provided the setDiscount guards reject nan (`discNanSafe`, a closed term over the
     generated guard table; `false` on the tree as first read). -/
-theorem step_valid (h : allValidateFirst = true) (hn : discNanSafe = true) (k : Kind) (s : St) (op : Op)
+theorem step_valid_of (h : allValidateFirst = true) (hn : discNanSafe = true) (k : Kind) (s : St) (op : Op)
     (hv : Valid k s) : Valid k (step k s op).1 := by
   apply step_valid_core h k s op hv
   intro d _ hg
@@ -582,11 +572,11 @@ theorem setDiscount_nan_counterexample (h : allValidateFirst = true) (k : Kind) 
   cases hq
 
 /-- **histories**: validity is an invariant of every sequence of calls, failing ones included -/
-theorem run_valid (h : allValidateFirst = true) (hn : discNanSafe = true) (k : Kind) (ops : List Op) (s : St)
+theorem run_valid_of (h : allValidateFirst = true) (hn : discNanSafe = true) (k : Kind) (ops : List Op) (s : St)
     (hv : Valid k s) : Valid k (run k s ops) := by
   induction ops generalizing s with
   | nil => exact hv
-  | cons op r ih => exact ih _ (step_valid h hn k s op hv)
+  | cons op r ih => exact ih _ (step_valid_of h hn k s op hv)
 
 theorem run_valid_partial (h : allValidateFirst = true) (k : Kind) (ops : List Op) (s : St)
     (hops : ∀ op ∈ ops, op ≠ .setDiscount .nan) (hv : Valid k s) : Valid k (run k s ops) := by
@@ -677,7 +667,7 @@ theorem accepted_table_is_supplied (h : allValidateFirst = true) (k : Kind) (s :
   · simp [hc] at hacc
 
 /-- … and every accepted row is a distribution (strict for dense storage, `RowW` for sparse storage) -/
-theorem accepted_tables_are_distributions (h : allValidateFirst = true) (k : Kind) (s : St) (t : Tab3)
+theorem accepted_tables_are_distributions_of (h : allValidateFirst = true) (k : Kind) (s : St) (t : Tab3)
     (hacc : (step k s (.setT3D t)).2 = false) : RowsOK (rowP k.base) (step k s (.setT3D t)).1.T := by
   obtain ⟨_, ht3, _⟩ := vf_unpack h
   simp only [step, prog, ht3, exec_setter_true] at hacc ⊢
@@ -749,7 +739,7 @@ theorem rowP_of_RowS (r : Rep) {row : List XRat} (h : RowS row) : rowP r row := 
 
 /-- `Model(s, a, discount)` / `SparseModel(s, a, discount)`: when the constructor validates its discount (after fix
     C06-2; `ctorChecks` is read from the source) every object it returns is valid, for ALL sizes and discounts. -/
-theorem ctorBasic_valid (k : Rep) (hc : ctorChecks k = true) (hn : discNanSafe = true) (S A : Nat) (d : XRat) (s : St)
+theorem ctorBasic_valid_of (k : Rep) (hc : ctorChecks k = true) (hn : discNanSafe = true) (S A : Nat) (d : XRat) (s : St)
     (h : ctorBasic k S A d = some s) : Valid ⟨k, k⟩ s := by
   simp only [ctorBasic, hc, Bool.true_and] at h
   by_cases hg : (discGuard k).eval d = true
@@ -771,16 +761,6 @@ theorem ctorBasic_valid (k : Rep) (hc : ctorChecks k = true) (hn : discNanSafe =
       obtain ⟨x, hx, rfl⟩ := hrow
       exact rowP_of_RowS k (identRow_ok S x hx)
     · intro m hm; cases hm
-
-/-- FULL STATEMENT: as above without `ctorChecks k = true`.  It is false of the code as first read: -/
-theorem ctorBasic_counterexample (k : Rep) (hc : ctorChecks k = false) :
-    ∃ s, ctorBasic k 1 1 (.fin 2) = some s ∧ ¬ Valid ⟨k, k⟩ s := by
-  simp only [ctorBasic, hc, Bool.false_and, Bool.false_eq_true, if_false]
-  refine ⟨_, rfl, ?_⟩
-  intro hv
-  obtain ⟨q, hq, _, h1⟩ := hv.disc
-  cases hq
-  norm_num at h1
 
 /-- NO_CHECK constructors store what they are given: the object is valid exactly when the arguments are -/
 theorem ctorNoCheck_valid_iff (k : Rep) (S A : Nat) (t : Tab3) (r : Tab2) (d : XRat) :
@@ -1231,7 +1211,7 @@ theorem pomdpBasic_valid (kb ko : Rep) (base : St) (O : Nat) (hO : 0 < O) (hv : 
 
 /-- `Model(s, a, t, r, d)` / `SparseModel(s, a, t, r, d)` = setDiscount; setTransitionFunction; setRewardFunction on a
     fresh object: if no step throws the result is valid, for all sizes, tables and discounts (nan aside unless guarded) -/
-theorem ctor3D_valid (h : allValidateFirst = true) (k : Rep) (S A : Nat) (t r : Tab3) (d : XRat) (s : St)
+theorem ctor3D_valid_of (h : allValidateFirst = true) (k : Rep) (S A : Nat) (t r : Tab3) (d : XRat) (s : St)
     (hd : discNanSafe = true ∨ d ≠ .nan) (hc : ctor3D k S A t r d = some s) : Valid ⟨k, k⟩ s := by
   obtain ⟨hvd, ht3, _⟩ := vf_unpack h
   unfold ctor3D at hc
@@ -1261,7 +1241,7 @@ theorem ctor3D_valid (h : allValidateFirst = true) (k : Rep) (S A : Nat) (t r : 
     · simp [hacc] at hc
     · have hacc' : (step ⟨k, k⟩ s1 (.setT3D t)).2 = false := by simpa using hacc
       simp only [hacc', Bool.false_eq_true, if_false] at hc
-      have hrows := accepted_tables_are_distributions h ⟨k, k⟩ s1 t hacc'
+      have hrows := accepted_tables_are_distributions_of h ⟨k, k⟩ s1 t hacc'
       have hkeep : (step ⟨k, k⟩ s1 (.setT3D t)).1.disc = d ∧ (step ⟨k, k⟩ s1 (.setT3D t)).1.Om = [] := by
         simp only [step, prog, ht3, exec_setter_true]
         split <;> simp [s1, blank]
@@ -1359,7 +1339,7 @@ theorem rowDistB_sound (slack : Rat) (row : List XRat) (h : rowDistB slack row =
 
 /-! ## POMDP constructors -/
 
-theorem accepted_obs_are_distributions (h : allValidateFirst = true) (k : Kind) (s : St) (o : Tab3)
+theorem accepted_obs_are_distributions_of (h : allValidateFirst = true) (k : Kind) (s : St) (o : Tab3)
     (hacc : (step k s (.setO3D o)).2 = false) :
     RowsOK (rowP k.obs) (step k s (.setO3D o)).1.Om ∧ (step k s (.setO3D o)).1.T = s.T ∧
     (step k s (.setO3D o)).1.disc = s.disc := by
@@ -1378,7 +1358,7 @@ theorem accepted_obs_are_distributions (h : allValidateFirst = true) (k : Kind) 
 
 /-- `POMDP::Model(o, of, params…)` / `POMDP::SparseModel(o, of, params…)`: a valid MDP part plus an accepted observation
     table is a valid POMDP; a rejected table means no object -/
-theorem pomdp3D_valid (h : allValidateFirst = true) (k : Kind) (base : St) (O : Nat) (o : Tab3) (s : St)
+theorem pomdp3D_valid_of (h : allValidateFirst = true) (k : Kind) (base : St) (O : Nat) (o : Tab3) (s : St)
     (hv : Valid ⟨k.base, k.base⟩ base) (hc : pomdp3D k base O o = some s) : Valid k s := by
   unfold pomdp3D at hc
   set s0 : St := { base with O := O, Om := mk3 base.A base.S O (fun _ _ _ => .fin 0) } with hs0
@@ -1389,12 +1369,12 @@ theorem pomdp3D_valid (h : allValidateFirst = true) (k : Kind) (base : St) (O : 
   · have hacc' : (step k s0 (.setO3D o)).2 = false := by simpa using hacc
     simp only [hacc', Bool.false_eq_true, if_false, Option.some.injEq] at hc
     subst hc
-    obtain ⟨h1, h2, h3⟩ := accepted_obs_are_distributions h k s0 o hacc'
+    obtain ⟨h1, h2, h3⟩ := accepted_obs_are_distributions_of h k s0 o hacc'
     exact ⟨by rw [h3]; exact hv.disc, by rw [h2]; exact hv.T, h1⟩
 
 /-- **conversion of a whole POMDP** (`POMDP::Model(const PM&)`, `POMDP::SparseModel(const PM&)` over either MDP class,
     from ANY source model): if it accepts, the result is a valid POMDP in the target representation -/
-theorem pomdp_copy_valid (kb ko : Rep) (m : Src) (O : Nat) (om : Tab3) (s : St)
+theorem pomdp_copy_valid_of (kb ko : Rep) (m : Src) (O : Nat) (om : Tab3) (s : St)
     (hn : discNanSafe = true ∨ m.disc ≠ .nan)
     (h : (copyBase kb m).bind (fun b => copyObs ko b O om) = some s) : Valid ⟨kb, ko⟩ s := by
   cases hb : copyBase kb m with
